@@ -9,6 +9,8 @@ import GgrsModel.Model.P2P
 import GgrsModel.Proofs.Shape
 import GgrsModel.Proofs.Session
 import GgrsModel.Proofs.Lockstep
+import GgrsModel.Proofs.DelayStep
+import GgrsModel.Proofs.LockstepNet
 
 namespace Ggrs
 
@@ -227,5 +229,40 @@ theorem C04_lockstep_all (x y : P2P × TLState) (h0 : ∃ gh, LkInv x.1 gh x.2) 
 example (s : P2P) (R : Nat → List (Input × InputStatus)) (n : Nat)
     (hq : s.sync.queues = List.replicate n InputQueue.new) (hst : s.localConnectStatus = List.replicate n {})
     (hc : s.sync.currentFrame = 0) : ∃ gh, LkInv s gh ⟨0, R⟩ := ⟨_, LkInv_init s R n hq hst hc⟩
+
+end Ggrs
+
+namespace Ggrs
+
+/-- `C04_window_all` for runs that also contain `set_input_delay` calls. -/
+theorem C04_window_delay (x y : P2P × TLState) (h0 : HInv x) (hrun : DStar x y)
+    (now : Nat) (s' : P2P) (reqs' : List Request) (hadv : y.1.advanceRollbackFrame now [] = .ok (s', reqs'))
+    (hnew : s'.sync.currentFrame ≠ y.1.sync.currentFrame) :
+    ∃ gh', SessInv s' gh' y.2 reqs' ∧ ∀ p, p < y.1.sync.queues.length →
+      y.1.sync.currentFrame - ((gh'.specs p).vals.length - 1 : Int) ≤ y.1.maxPrediction := by
+  obtain ⟨⟨gh, h, _⟩, _⟩ := HInv_run x y h0 hrun
+  exact window_all y.1 s' gh y.2 [] reqs' now h hadv hnew
+
+end Ggrs
+
+namespace Ggrs
+
+/-- `C04_lockstep_all` for runs that also contain `set_input_delay` calls of local players: still
+nothing is ever predicted, saved, loaded or re-simulated, and every row is the full row of real,
+Confirmed inputs (with the delays in force when they were submitted). -/
+theorem C04_lockstep_delay (x y : P2P × TLState) (h0 : LkNetInv x) (hrun : DLkStar x y) :
+    ∃ gh, LkInv y.1 gh y.2 ∧
+      (∀ f : Nat, (f : Int) < y.1.sync.currentFrame → y.2.R f = rowOf gh y.1.sync.queues.length f) ∧
+      ∀ (now : Nat) (s' : P2P) (reqs' : List Request), y.1.advanceLockstepFrame now [] = .ok (s', reqs') →
+        ∃ gh', LkInv s' gh' (execReqs y.2 reqs') ∧
+          ((reqs' = [] ∧ s'.sync.currentFrame = y.1.sync.currentFrame) ∨
+           (∃ c : Nat, y.1.sync.currentFrame = (c : Int) ∧
+             reqs' = [.advance (rowOf gh' y.1.sync.queues.length c)] ∧
+             s'.sync.currentFrame = y.1.sync.currentFrame + 1)) := by
+  obtain ⟨⟨gh, h, _⟩, _⟩ := LkNetInv_drun x y h0 hrun
+  refine ⟨gh, h, h.timeline, ?_⟩
+  intro now s' reqs' hadv
+  obtain ⟨gh', h', hcase, _⟩ := lockstepTick_spec y.1 s' gh y.2 now reqs' h hadv
+  exact ⟨gh', h', hcase⟩
 
 end Ggrs
